@@ -765,6 +765,8 @@ def run_converse(case) -> CaseResult:
     ca = memwire.key('c05-ca', 'ssh-ed25519')
     optstr = OPTION_SETS[case['opts'] % len(OPTION_SETS)]
     cred = case['cred']
+    ambiguous = False
+    cert_cmd, cert_pty = case['cert_cmd'], case['cert_pty']
     # authorized_keys shape: is the plain key listed next to the CA line, and
     # does the CA line carry principals="..." (sshd(8): at least one listed
     # name must appear in the certificate's principals)
@@ -831,6 +833,26 @@ def run_converse(case) -> CaseResult:
         expect = case['valid'] and case['user'] == 'alice' and from_ok and \
             key_listed
         restr = opts if expect else {}
+    elif cred == 'agent-cert':
+        # the agent holds the key AND a certificate for it (ssh-add picks up
+        # id-cert.pub): asyncssh gets both identities from the agent
+        sock = agent_socket('user+cert' if case['valid'] else 'other')
+
+        if sock is None:
+            return CaseResult(['no-ssh-agent'], False)
+
+        copts['agent_path'] = sock
+        copts['client_keys'] = []
+        option_ok = not ca_princ or 'alice' in ca_princ.split(',')
+        cert_ok = case['valid'] and case['user'] == 'alice' and option_ok
+        key_ok = case['valid'] and case['user'] == 'alice' and from_ok and \
+            key_listed
+        expect = cert_ok or key_ok
+        # which of the two identities gets used first is the agent's order:
+        # restrictions are only checked when exactly one can succeed
+        ambiguous = cert_ok and key_ok
+        cert_cmd, cert_pty = False, True
+        restr = {'cert': True} if cert_ok else (opts if key_ok else {})
     elif cred == 'key':
         copts['client_keys'] = [ukey if case['valid'] else okey]
         expect = case['valid'] and case['user'] == 'alice' and from_ok and \
@@ -880,7 +902,7 @@ def run_converse(case) -> CaseResult:
             h.pump_until(pair.copts.waiter.done)
             if pair.copts.waiter.done():
                 break
-            if cred == 'agent':
+            if cred in ('agent', 'agent-cert'):
                 # the agent answers over a real socket from another process:
                 # the in-memory wire is quiescent meanwhile
                 deadline = time.perf_counter() + 10
@@ -920,7 +942,7 @@ def run_converse(case) -> CaseResult:
             return CaseResult(sorted(labels), True)
 
         labels.add('admitted')
-        if cred == 'agent':
+        if cred in ('agent', 'agent-cert'):
             labels.add('via-agent')
         user = pair.s.get_extra_info('username')
 
@@ -938,11 +960,17 @@ def run_converse(case) -> CaseResult:
         want_cmd = 'client-cmd'
         pty_ok = True
 
+        if ambiguous:
+            labels.add('session-opened')
+            return CaseResult(sorted(labels), True)
+
         if restr.get('cert'):
-            if case['cert_cmd']:
+            if cert_cmd:
                 want_cmd = 'cert-cmd'
-            pty_ok = case['cert_pty'] and 'no-pty' not in optstr
+            pty_ok = cert_pty and 'no-pty' not in optstr
             labels.add('via-cert')
+            if cred == 'agent-cert':
+                labels.add('via-agent-cert')
         else:
             want_cmd = restr.get('command', 'client-cmd')
             pty_ok = 'no-pty' not in restr
@@ -958,9 +986,13 @@ def run_converse(case) -> CaseResult:
         # a refused pty request surfaces as a failed session open
         if case['want_pty'] and 'PTY' in str(exc):
             pty_allowed = ('no-pty' not in optstr) if not restr.get('cert') \
-                else (case['cert_pty'] and 'no-pty' not in optstr)
-            if restr.get('cert') is None and not restr:
+                else (cert_pty and ('no-pty' not in optstr or
+                                   cred == 'agent-cert'))
+            if (restr.get('cert') is None and not restr) or ambiguous:
                 pty_allowed = True
+            if ambiguous:
+                labels.add('session-opened')
+                return CaseResult(sorted(labels), True)
             if pty_allowed:
                 raise Violation('restrictions', 'pty refused although the '
                                 'accepted credential permits it',
@@ -976,7 +1008,7 @@ def run_converse(case) -> CaseResult:
 def converse_strategy(tier: str):
     return st.fixed_dictionaries({
         'cred': pick(['password', 'kbdint', 'key', 'key', 'cert', 'cert',
-                      'agent']),
+                      'agent', 'agent-cert']),
         'valid': pick([True, True, False]),
         'user': pick(['alice', 'alice', 'alice', 'bob', 'eve']),
         'opts': pick(range(len(OPTION_SETS))),
@@ -1053,7 +1085,7 @@ FAMILIES = [
            budget={'quick': 800, 'thorough': 8000},
            required={'all': ['cred:password', 'cred:kbdint', 'cred:key',
                              'cred:cert', 'cred:agent', 'admitted', 'refused',
-                             'via-cert', 'via-agent',
+                             'via-cert', 'via-agent', 'via-agent-cert',
                              'session-opened', 'cert-princ:empty',
                              'cert-refused-by-principals',
                              'ca-line:plain']},
